@@ -148,4 +148,32 @@ theorem ctor_quat_scale (p : V3 ℝ) (k x y z w : ℝ) (hk : k ≠ 0) :
     (ctor7 p (k * x) (k * y) (k * z) (k * w)).TM = (ctor7 p x y z w).TM := by
   rw [ctor_quat, ctor_quat, quatToRot_smul k x y z w hk]
 
+theorem T4_mul_one' (A : T4 ℝ) : A * T4.one = A := by
+  obtain ⟨⟨a, b, c, d, e, f, g, h, i⟩, ⟨x, y, z⟩⟩ := A
+  m3ring
+
+/-- the inverse reverses products: inv(A·B) = inv(B)·inv(A) (uniqueness of the group inverse) -/
+theorem transInv_mul_rev (A B : T4 ℝ) (hA : IsRot A.R) (hB : IsRot B.R) :
+    transInv (A * B) = transInv B * transInv A := by
+  have hAB : IsRot (A * B).R := isRot_mul hA hB
+  have h1 : transInv (A * B) * (A * B) = T4.one := BR.C01.transInv_mul _ hAB.1
+  have h2 : (A * B) * (transInv B * transInv A) = T4.one := by
+    rw [T4_mul_assoc, ← T4_mul_assoc B, BR.C01.mul_transInv B hB, T4_one_mul, BR.C01.mul_transInv A hA]
+  calc transInv (A * B) = transInv (A * B) * ((A * B) * (transInv B * transInv A)) := by rw [h2, T4_mul_one']
+    _ = (transInv (A * B) * (A * B)) * (transInv B * transInv A) := (T4_mul_assoc _ _ _).symm
+    _ = transInv B * transInv A := by rw [h1, T4_one_mul]
+
+/-- inverting twice gives the transform back -/
+theorem transInv_transInv (A : T4 ℝ) (hA : IsRot A.R) : transInv (transInv A) = A := by
+  have hI : IsRot (transInv A).R := isRot_T hA
+  have h1 : transInv (transInv A) * transInv A = T4.one := BR.C01.transInv_mul _ hI.1
+  calc transInv (transInv A) = transInv (transInv A) * (transInv A * A) := by rw [BR.C01.transInv_mul A hA.1, T4_mul_one']
+    _ = (transInv (transInv A) * transInv A) * A := (T4_mul_assoc _ _ _).symm
+    _ = A := by rw [h1, T4_one_mul]
+
+/-- on transform objects: `(a @ b).inv()` and `b.inv() @ a.inv()` have the same matrix; `a.inv().inv()` is `a` -/
+theorem inv_matmul (a b : Tm ℝ) (ha : WF a) (hb : WF b) :
+    transInv (matmul a b).TM = transInv b.TM * transInv a.TM ∧ transInv (transInv a.TM) = a.TM :=
+  ⟨by rw [matmul_is_mul]; exact transInv_mul_rev _ _ ha hb, transInv_transInv _ ha⟩
+
 end BR.C04
